@@ -107,4 +107,35 @@ def c01(ctx):
     return ctx.finish(rule=RULE_VERIFY)
 
 
-CHECKS = {'C01': c01}
+def c02(ctx):
+    from . import drv_verify
+    run_verify_family(ctx, (600, 100), (6000, 2000), lookups=True, want=('lib',))
+    n = 4000 if ctx.tier == 'thorough' else 250
+    out = core.pool_map(drv_verify.one_tamper, [(ctx.seed, i, {}) for i in range(n)])
+    recs = [r for o in out for r in o]
+    metas = [r.pop('meta') for r in recs]
+    for k in range(0, len(recs), 6000):
+        ctx.judge('TraceVerify', 'TraceVerify.cfg', recs[k:k + 6000], metas[k:k + 6000],
+                  {'driver': 'one_tamper'}, sig=_sig_verify)
+    ctx.extra['tamper_scenarios'] = n
+    ctx.extra['tamper_by_kind'] = {}
+    for m in metas:
+        key = '%s depth=%d j=%d k=%d' % (m['kind'], m['depth'], m['j'], m['k'])
+        ctx.extra['tamper_by_kind'][key] = ctx.extra['tamper_by_kind'].get(key, 0) + 1
+    for r, m in list(zip(recs, metas))[:2]:
+        ctx.sample({'direction': 'code->spec', 'attack': m, 'ev': r['ev']})
+    ctx.assumptions += ['attacker recomputation is done by the harness writer, not gemato',
+                        'lookups judged against AcceptedUp (chain-accepted Manifests of ancestors)']
+    return ctx.finish(rule=RULE_VERIFY + ' C02 adds chains of depth 1..5 (all compression formats, '
+                      'second Manifest per directory) attacked by change/add/remove/DIST-edit with '
+                      'recomputation of levels j..k, observed through the five APIs.')
+
+
+def c07(ctx):
+    run_verify_family(ctx, (1500, 300), (12000, 6000), want=('keep', 'clik', 'lib'))
+    ctx.assumptions += ['handler policy recorded per invocation; order of reports not judged']
+    return ctx.finish(rule=RULE_VERIFY + ' C07 judges keep-going calls: bag of reported paths '
+                      'against Offending, result against handler returns.')
+
+
+CHECKS = {'C01': c01, 'C02': c02, 'C07': c07}
